@@ -323,7 +323,7 @@ pub fn run(cx: &mut Ctx) {
     for (name, m) in directed() {
         cx.case(name, |c| check_content(c, name, &m, 12, det));
     }
-    let n = if det { cx.a.n(600, 6000) } else { cx.a.n(200_000, 3_000_000) };
+    let n = if det { cx.a.n(600, 6000) } else { cx.a.n(600_000, 4_000_000) };
     let quick = cx.a.quick();
     for _ in 0..n {
         cx.case("random", |c| {
